@@ -197,3 +197,49 @@ Section Keys.
     split; [exact Hin | apply Hspec; exact He].
   Qed.
 End Keys.
+
+(* ---------------------------------------------------------------- references and identities *)
+Section Refs.
+  Context {A K : Type} (idf : A -> Z) (key : A -> K).
+
+  (* pointer dereference by id, 0 = nil *)
+  Definition lookup0 (l : list A) (id : Z) : option A :=
+    if id =? 0 then None else find (fun y => idf y =? id) l.
+
+  Lemma lookup0_range : forall l id,
+    ids_seq idf l -> 1 <= id <= Z.of_nat (length l) ->
+    exists x, lookup0 l id = Some x /\ In x l /\ idf x = id.
+  Proof.
+    intros l id H Hr. unfold lookup0.
+    replace (id =? 0) with false by (symmetry; apply Z.eqb_neq; lia).
+    apply (find_id_range idf l 1 id H). lia.
+  Qed.
+
+  (* with pairwise distinct keys, a reference is determined by the key of what it points to *)
+  Lemma ref_inj : forall l a b,
+    ids_seq idf l -> NoDup (map key l) ->
+    0 <= a <= Z.of_nat (length l) -> 0 <= b <= Z.of_nat (length l) ->
+    option_map key (lookup0 l a) = option_map key (lookup0 l b) -> a = b.
+  Proof.
+    intros l a b H Hnd Ha Hb E.
+    destruct (Z.eq_dec a 0) as [->|Na]; destruct (Z.eq_dec b 0) as [->|Nb].
+    - reflexivity.
+    - destruct (lookup0_range l b H) as [x [Hx _]]; [lia|]. rewrite Hx in E. discriminate.
+    - destruct (lookup0_range l a H) as [x [Hx _]]; [lia|]. rewrite Hx in E. discriminate.
+    - destruct (lookup0_range l a H) as [x [Hx [Hinx Hidx]]]; [lia|].
+      destruct (lookup0_range l b H) as [y [Hy [Hiny Hidy]]]; [lia|].
+      rewrite Hx, Hy in E. cbn in E. inversion E as [E'].
+      assert (x = y) by (eapply (nodup_key_inj key); eauto). subst. congruence.
+  Qed.
+End Refs.
+
+Lemma NoDup_map_inj_on : forall {A B C} (f : A -> B) (g : A -> C) l,
+  NoDup (map f l) -> (forall x y, In x l -> In y l -> g x = g y -> f x = f y) -> NoDup (map g l).
+Proof.
+  intros A B C f g. induction l as [|x r IH]; intros Hnd Hinj; cbn.
+  - constructor.
+  - cbn in Hnd. inversion Hnd as [|? ? Hnot Hnd']; subst. constructor.
+    + rewrite in_map_iff. intros [y [Hy Hin]]. apply Hnot. rewrite in_map_iff.
+      exists y. split; [|exact Hin]. apply Hinj; [right; exact Hin | left; reflexivity | exact Hy].
+    + apply IH; [exact Hnd'|]. intros a b Ha Hb. apply Hinj; right; assumption.
+Qed.
